@@ -76,6 +76,7 @@ mut("c11_client_owner_unregisters_without_signal", "C11", "internal/client/multi
 mut("c11_client_stream_teardown_without_signal", "C11", "internal/client/multiplexer.go", "\t\tgoneOnce.Do(func() { close(gone) })\n", "\t\t_ = &goneOnce\n")
 mut("c14_refused_open_keeps_its_context", "C14", "server.go", "\t\tcancel() // no stream will use this context\n", "")
 mut("c19_new_connection_starts_idle", "C19", "http.go", "\t\tconn.bumpActivity()\n\n", "")
+mut("c12_empty_chain_guard_tests_nil_only", "C12,C20", "chained.go", "func ChainUnaryInterceptor(interceptors ...grpc.UnaryServerInterceptor) ServerOption {\n\tif len(interceptors) == 0 {", "func ChainUnaryInterceptor(interceptors ...grpc.UnaryServerInterceptor) ServerOption {\n\tif interceptors == nil {")
 mut("c10_serve_no_drain", "C10", "server.go", "\th.cancelAndWaitForStreams()\n", "")
 
 only = sys.argv[1] if len(sys.argv) > 1 else ""
